@@ -260,8 +260,12 @@ def ad_event(**kw):
 def record_adapt(sc):
     widths, obs, U, UW = sc["widths"], sc["obs"], sc["unit"], sc["unitw"]
     C = sum(cols(w) for w in widths)
+    # pow2 = k: the whole scenario is played on data multiplied by S = 2^-k (exact in floats) and every logged quantity is
+    # brought back to the unscaled units (scale / S, weight * S, plain distance / S; the scaled distances are invariant):
+    # the trace is the one of the unscaled scenario whatever the magnitude of the summaries
+    S = 2.0 ** -sc.get("pow2", 0)
     with time_limit(20):
-        model, d, sim, _ = build(widths, obs, "adaptive")
+        model, d, sim, _ = build(widths, [[x * S for x in o] for o in obs] if S != 1.0 else obs, "adaptive")
     events = []
     for st in sc["script"]:
         op = st["op"]
@@ -270,30 +274,43 @@ def record_adapt(sc):
         try:
             with time_limit(60):
                 if op == "add":
-                    d.add_data(*[to_array(st["sums"][k], widths[k]) for k in range(len(widths))])
+                    d.add_data(*[to_array(st["sums"][k], widths[k]) * S for k in range(len(widths))])
                     store = d.state["store"]
                     e["n"] = int(store[0])
-                    e["mean"] = [enc(x, U) for x in np.broadcast_to(np.asarray(store[1], dtype=float), (C,))]
-                    e["m2"] = [enc(x, U) for x in np.broadcast_to(np.asarray(store[2], dtype=float), (C,))]
-                    e["sc2"] = [enc(x * x, U) for x in np.asarray(d.state["scale"], dtype=float).reshape(-1)]
+                    e["mean"] = [enc(x / S, U) for x in np.broadcast_to(np.asarray(store[1], dtype=float), (C,))]
+                    e["m2"] = [enc(x / S / S, U) for x in np.broadcast_to(np.asarray(store[2], dtype=float), (C,))]
+                    e["sc2"] = [enc((x / S) * (x / S), U) for x in np.asarray(d.state["scale"], dtype=float).reshape(-1)]
                 elif op == "update":
                     with np.errstate(all="ignore"):
                         d.update_distance()
-                    w = np.asarray(d.state["w"][-1], dtype=float).reshape(-1)
+                    w = np.asarray(d.state["w"][-1], dtype=float).reshape(-1) * S
                     e["w2"] = [enc(x * x, UW) for x in w]
                     e["nw"], e["ndf"] = len(d.state["w"]), len(d.state["distance_functions"])
                     e["n"] = int(d.state["store"][0])
                 elif op == "gen":
                     wv = with_values(widths, st["sums"])
+                    if S != 1.0:
+                        wv = {k: v * S for k, v in wv.items()}
                     n = len(st["sums"][0])
                     out = d.generate(n, with_values=wv) if st.get("bs_given", True) else d.generate(with_values=wv)
+                    if S != 1.0:
+                        out = np.array(out, dtype=float)
+                        if out.ndim == 1:
+                            out = out / S
+                        else:
+                            out[:, 0] = out[:, 0] / S
                     e["shape"], e["v"], e["sq"] = matrix(out, U)
                 elif op == "run":
                     import elfi
                     sim.table, sim.ids = st["table"], []
                     rej = elfi.Rejection(d, batch_size=st["bs"], seed=st["seed"], output_names=names(widths),
                                          max_parallel_batches=1)
-                    res = rej.sample(st["n"], n_sim=st["n_sim"], bar=False)
+                    if st.get("thr") is not None:
+                        # a threshold objective (on the plain Euclidean distance of the fresh node): batches WITHOUT any accepted
+                        # row are adaptation data like all others
+                        res = rej.sample(st["n"], threshold=float(st["thr"]), bar=False)
+                    else:
+                        res = rej.sample(st["n"], n_sim=st["n_sim"], bar=False)
                     data = [st["table"][i % len(st["table"])] for i in sim.ids]      # the simulator's own log
                     e["sums"] = sums_of_stacked(data, widths)
                     e["rsums"] = [to_rows(res.outputs[n], read=True) for n in names(widths)]
@@ -495,6 +512,12 @@ def adapt_scenarios(ctx):
             script += [dict(op="gen", qid=q, sums=sums_of_stacked(pinned[q], widths), bs_given=bool(q)) for q in range(2)]
             script.append(dict(op="gen", qid=10 + r, sums=sums_of_stacked(fresh[r], widths)))
         out.append(dict(kind="adapt", tag="rounds", widths=widths, obs=obs, unit=U, unitw=UW, script=script))
+    # (4b) the same on summaries of very small / large magnitude (exact power-of-two rescaling of data and observations)
+    scaled = []
+    for sc in out:
+        if sc.get("tag") in ("rounds", "partitions") and not any(st["op"] == "run" for st in sc["script"]) and rnd.random() < 0.25:
+            scaled.append(dict(sc, tag=sc["tag"] + "-pow2", pow2=rnd.choice([45, 60, 70, -30])))
+    out.extend(scaled)
     # (5) inside a model run: Rejection over the adaptive node, the same table split by different batch sizes
     out.extend(run_scenarios(ctx, rnd))
     return out
@@ -510,6 +533,22 @@ def run_scenarios(ctx, rnd):
     for bs in (1, 2, 3, 4, 6, 12):
         out.append(run_scenario([0, 0], [[3], [15]], PINNED_TABLE, bs, 5, 12, 1000 + bs, runs=1))
     out.append(run_scenario([2], [[3, 15]], PINNED_TABLE, 4, 5, 12, 7, runs=2))
+    # threshold objective: half of the table's rows lie within 5.5 of the observed (3, 15); small batches have no acceptance
+    for bs in (1, 2, 3, 12):
+        out.append(run_scenario([0, 0], [[3], [15]], PINNED_TABLE, bs, 5, 12, 2000 + bs, runs=1, thr=5.5))
+    for _ in range(6 if ctx.quick else 60):
+        widths = rnd.choice([[0, 0], [2], [1, 0]])
+        while True:
+            table = [[rnd.randint(0, 9), rnd.randint(0, 20)] for _r in range(rnd.randint(6, 12))]
+            # (at least two rows are consumed; any two leading rows differ in every column: no degenerate adaptation round)
+            if nondegenerate(table) and table[0][0] != table[1][0] and table[0][1] != table[1][1]:
+                break
+        ob = [rnd.randint(2, 7), rnd.randint(5, 15)]
+        d2 = sorted((r[0] - ob[0]) ** 2 + (r[1] - ob[1]) ** 2 for r in table)
+        thr = (d2[len(d2) // 2] + 0.25) ** 0.5            # about half of the rows acceptable, no row exactly on the threshold
+        n_ok = sum(1 for v in d2 if v <= thr * thr)
+        out.append(run_scenario(widths, split_row(ob, widths), table, rnd.choice([1, 2, 3]), rnd.randint(2, max(2, n_ok)), len(table),
+                                rnd.randint(0, 10 ** 6), runs=1, thr=thr))
     n_rand = 25 if ctx.quick else 250
     for _ in range(n_rand):
         widths = rnd.choice([[0], [0, 0], [2], [1, 0], [0, 2], [3], [0, 0, 0]])
@@ -527,14 +566,14 @@ def run_scenarios(ctx, rnd):
     return out
 
 
-def run_scenario(widths, obs, table, bs, n, n_sim, seed, runs=1):
+def run_scenario(widths, obs, table, bs, n, n_sim, seed, runs=1, thr=None):
     C = len(table[0])
-    U, UW = units_for(obs, [table], [table])
+    U, UW = units_for(obs, [table * (1 if thr is None else 4)], [table])
     script = []
     for r in range(runs):
         # later runs see the table rotated, so every adaptation round has its own data order
         tab = table[r:] + table[:r]
-        script.append(dict(op="run", table=tab, bs=bs, n=n, n_sim=n_sim, seed=seed + r))
+        script.append(dict(op="run", table=tab, bs=bs, n=n, n_sim=n_sim, seed=seed + r, thr=thr))
         script.append(dict(op="gen", qid=0, sums=sums_of_stacked(table[:2], widths)))
     return dict(kind="adapt", tag="run", widths=widths, obs=obs, unit=U, unitw=UW, script=script)
 
